@@ -1,5 +1,1081 @@
+//! Driver + logger for dasp_graph (properties C09 and C16).  No oracle logic: stimuli (from TLC's
+//! MC_Graph / MC_Nodes or from `gen`) are executed on the real crate and everything the code did is
+//! logged; Trace_Graph.tla / Trace_Nodes.tla judge the log.
+//!
+//! comp "graph" (C09): a graph of instrumented `Probe` nodes is built as petgraph `Graph` or
+//!   `StableGraph` (with vacant slots made by adding and removing extra nodes), node weights
+//!   `NodeData<Probe>`, `NodeData<BoxedNode>` or `NodeData<BoxedNodeSend>`.  A probe logs, per
+//!   invocation, the inputs it is handed (identity by the stamp found in the input's buffers AND by
+//!   pointer, the stamp's call counter, the number of buffers, the first sample), runs its function
+//!   (source / dasp Sum / dasp Pass) and stamps its own buffers with (id, call#).  ONE Processor is
+//!   used for every process call of an execution, across `graph` events that replace the graph.
+//! comp "node" (C16): one node under test (any built-in kind, any wrapper) fed by no-op feeder
+//!   nodes whose buffers the driver fills; a recording slot around the node under test copies what it
+//!   is handed (inputs, output buffers before) and what it leaves (output buffers after).
+use dasp_graph::node::{Delay, GraphNode, Pass, Sum, SumBuffers};
+use dasp_graph::{BoxedNode, BoxedNodeSend, Buffer, Input, Node, NodeData, Processor};
+use frame_reg::Frame;
+use hx_common::*;
+use petgraph::graph::{Graph, NodeIndex};
+use petgraph::stable_graph::StableGraph;
+use petgraph::visit::NodeIndexable;
+use serde_json::{json, Value};
+use sig_reg::Signal;
+use std::cell::RefCell;
+use std::marker::PhantomData;
+
+#[global_allocator]
+static A: CountingAlloc = CountingAlloc;
+
+const LEN: usize = Buffer::LEN;
+const ST_ID: usize = LEN - 2; // the two last samples of every probe buffer carry the stamp (id, call#)
+const ST_CNT: usize = LEN - 1;
+
+/// f32 -> the exact small integer it is; anything else clears `exact` (the spec then rejects).
+fn fi(x: f32, exact: &mut bool) -> i64 {
+    if x.is_finite() && x.fract() == 0.0 && x.abs() < 16_777_216.0 {
+        x as i64
+    } else {
+        *exact = false;
+        0
+    }
+}
+fn us(v: &Value) -> usize {
+    v.as_u64().expect("unsigned") as usize
+}
+fn uss(v: &Value) -> Vec<usize> {
+    v.as_array().expect("array").iter().map(us).collect()
+}
+fn const_buf(v: f32) -> Buffer {
+    Buffer::from([v; LEN])
+}
+
+// ============================================================================================
+// C09: instrumented graph
+// ============================================================================================
+
+struct Rec9 {
+    ptrs: Vec<(usize, i64)>,
+    log: Vec<i64>,
+    exact: bool,
+    overflow: bool,
+}
+impl Rec9 {
+    fn push(&mut self, v: i64) {
+        if self.log.len() == self.log.capacity() {
+            self.overflow = true; // never allocate inside the measured window
+        } else {
+            self.log.push(v);
+        }
+    }
+}
+thread_local! {
+    static R9: RefCell<Rec9> = RefCell::new(Rec9 { ptrs: Vec::new(), log: Vec::new(), exact: true, overflow: false });
+}
+
+#[derive(Clone, Copy)]
+enum PK {
+    Src(i64),
+    Sum,
+    Pass,
+}
+struct Probe {
+    id: i64,
+    kind: PK,
+    cnt: i64,
+}
+impl Node for Probe {
+    fn process(&mut self, inputs: &[Input], output: &mut [Buffer]) {
+        R9.with(|r| {
+            let mut r = r.borrow_mut();
+            r.push(self.id);
+            r.push(inputs.len() as i64);
+            for inp in inputs {
+                let b = inp.buffers();
+                let p = b.as_ptr() as usize;
+                let pid = r.ptrs.iter().find(|(q, _)| *q == p).map(|(_, i)| *i).unwrap_or(-1);
+                let mut ex = true;
+                let (sid, scnt, v) = if b.is_empty() {
+                    (-1, -1, 0)
+                } else {
+                    (fi(b[0][ST_ID], &mut ex), fi(b[0][ST_CNT], &mut ex), fi(b[0][0], &mut ex))
+                };
+                if !ex {
+                    r.exact = false;
+                }
+                r.push(sid);
+                r.push(scnt);
+                r.push(pid);
+                r.push(b.len() as i64);
+                r.push(v);
+            }
+        });
+        match self.kind {
+            PK::Src(c) => {
+                let v = (c + self.cnt + 1) as f32;
+                for b in output.iter_mut() {
+                    for s in b.iter_mut() {
+                        *s = v;
+                    }
+                }
+            }
+            PK::Sum => Sum.process(inputs, output),
+            PK::Pass => Pass.process(inputs, output),
+        }
+        self.cnt += 1;
+        for b in output.iter_mut() {
+            b[ST_ID] = self.id as f32;
+            b[ST_CNT] = self.cnt as f32;
+        }
+    }
+}
+
+/// Final buffer state of one node: per buffer the stamp and the run-length form of samples 0..LEN-2.
+fn buf_obs(id: usize, bufs: &[Buffer], exact: &mut bool) -> Value {
+    let mut st = Vec::new();
+    let mut runs = Vec::new();
+    for b in bufs {
+        st.push(json!([fi(b[ST_ID], exact), fi(b[ST_CNT], exact)]));
+        let mut rs: Vec<Value> = Vec::new();
+        let mut i = 0;
+        while i < ST_ID {
+            let mut j = i;
+            while j < ST_ID && b[j].to_bits() == b[i].to_bits() {
+                j += 1;
+            }
+            rs.push(json!([fi(b[i], exact), j - i]));
+            i = j;
+        }
+        runs.push(Value::Array(rs));
+    }
+    json!({"id": id, "st": st, "runs": runs})
+}
+
+fn probe_kind(cfg: &Value, i: usize) -> PK {
+    match cfg["kinds"][i].as_str().unwrap_or("none") {
+        "sum" => PK::Sum,
+        "pass" => PK::Pass,
+        _ => PK::Src(cfg["c"][i].as_i64().unwrap_or(0)),
+    }
+}
+
+macro_rules! c09_runner {
+    ($fname:ident, $G:ident, $T:ty, $mk:expr, $stable:expr) => {
+        fn $fname(out: &mut Out, ex: &[Value]) {
+            type GT = $G<NodeData<$T>, (), petgraph::Directed, u32>;
+            let mut proc: Option<Processor<GT>> = None;
+            let mut g: GT = <GT>::default();
+            let mut slots = 0usize;
+            let mut live: Vec<usize> = Vec::new();
+            let mut maxin = 0usize;
+            let mut nedges = 0usize;
+            for ev in ex {
+                let name = ev["ev"].as_str().unwrap();
+                match name {
+                    "reset" | "graph" => {
+                        let cfg = if name == "reset" { &ev["cfg"] } else { &ev["a"]["cfg"] };
+                        slots = us(&cfg["slots"]);
+                        live = uss(&cfg["live"]);
+                        let edges: Vec<(usize, usize)> =
+                            cfg["edges"].as_array().unwrap().iter().map(|e| (us(&e[0]), us(&e[1]))).collect();
+                        let vacant: Vec<usize> = (0..slots).filter(|i| !live.contains(i)).collect();
+                        if !$stable && !vacant.is_empty() {
+                            panic!("stimulus asks for vacant slots in a plain Graph");
+                        }
+                        g = <GT>::default();
+                        for i in 0..slots {
+                            let nb = if live.contains(&i) { us(&cfg["nb"][i]) } else { 1 };
+                            let init = if live.contains(&i) { cfg["init"][i].as_i64().unwrap() as f32 } else { 0.0 };
+                            let mut bufs = vec![const_buf(init); nb];
+                            for b in bufs.iter_mut() {
+                                b[ST_ID] = i as f32;
+                                b[ST_CNT] = 0.0;
+                            }
+                            let p = Probe { id: i as i64, kind: probe_kind(cfg, i), cnt: 0 };
+                            let ix = g.add_node(NodeData::new($mk(p), bufs));
+                            assert_eq!(ix.index(), i, "harness: unexpected node index");
+                        }
+                        // extra nodes get edges to and from everything, so that removing them has work to do
+                        let decoy = |g: &mut GT, v: usize| {
+                            for &u in live.iter() {
+                                g.add_edge(NodeIndex::new(v), NodeIndex::new(u), ());
+                                g.add_edge(NodeIndex::new(u), NodeIndex::new(v), ());
+                            }
+                            g.add_edge(NodeIndex::new(v), NodeIndex::new(v), ());
+                        };
+                        for &v in vacant.iter().filter(|v| *v % 2 == 0) {
+                            decoy(&mut g, v);
+                        }
+                        for (k, &(u, v)) in edges.iter().enumerate() {
+                            g.add_edge(NodeIndex::new(u), NodeIndex::new(v), ());
+                            if k == edges.len() / 2 {
+                                for &v in vacant.iter().filter(|v| *v % 2 == 1) {
+                                    decoy(&mut g, v);
+                                }
+                            }
+                        }
+                        if edges.is_empty() {
+                            for &v in vacant.iter().filter(|v| *v % 2 == 1) {
+                                decoy(&mut g, v);
+                            }
+                        }
+                        let mut rm = vacant.clone();
+                        if cfg["vacpat"].as_u64().unwrap_or(0) % 2 == 1 {
+                            rm.reverse();
+                        }
+                        for v in rm {
+                            g.remove_node(NodeIndex::new(v));
+                        }
+                        maxin = live.iter().map(|&v| edges.iter().filter(|e| e.1 == v && e.0 != v).count()).max().unwrap_or(0);
+                        nedges = edges.len();
+                        if proc.is_none() {
+                            proc = Some(Processor::with_capacity(us(&cfg["cap"])));
+                        }
+                        let mut exact = true;
+                        let bufs: Vec<Value> = (0..slots)
+                            .map(|i| match g.node_weight(NodeIndex::new(i)) {
+                                Some(w) => buf_obs(i, &w.buffers, &mut exact),
+                                None => json!({"id": i, "st": [], "runs": []}),
+                            })
+                            .collect();
+                        let o = json!({"ok": true, "exact": exact, "bound": g.node_bound(), "count": g.node_count(),
+                                       "edges": g.edge_count(), "maxin": maxin, "bufs": bufs});
+                        if name == "reset" {
+                            out.line(&json!({"ev":"reset","comp":"graph","cfg":cfg,"r":r_unit(),"o":o}));
+                        } else {
+                            out.ev("graph", json!({"cfg": cfg}), r_unit(), o, [0, 0, 0]);
+                        }
+                    }
+                    "process" => {
+                        let o_ix = us(&ev["a"]["out"]);
+                        let ptrs: Vec<(usize, i64)> = live
+                            .iter()
+                            .map(|&i| (g.node_weight(NodeIndex::new(i)).unwrap().buffers.as_ptr() as usize, i as i64))
+                            .collect();
+                        R9.with(|r| {
+                            let mut r = r.borrow_mut();
+                            r.ptrs = ptrs;
+                            r.log = Vec::with_capacity(2 * slots + 5 * (nedges + 2 * slots * slots) + 16);
+                            r.exact = true;
+                            r.overflow = false;
+                        });
+                        let p = proc.as_mut().unwrap();
+                        let (res, h, _) = measured(|| catch(|| p.process(&mut g, NodeIndex::new(o_ix))));
+                        let (log, mut exact, overflow) = R9.with(|r| {
+                            let r = r.borrow();
+                            (r.log.clone(), r.exact, r.overflow)
+                        });
+                        let (mut order, mut src, mut cnt, mut ptr, mut nbs, mut val) =
+                            (Vec::new(), Vec::new(), Vec::new(), Vec::new(), Vec::new(), Vec::new());
+                        let mut i = 0;
+                        while i + 1 < log.len() {
+                            order.push(log[i]);
+                            let k = log[i + 1] as usize;
+                            let f = |off: usize| -> Vec<i64> { (0..k).map(|j| log[i + 2 + 5 * j + off]).collect() };
+                            src.push(f(0));
+                            cnt.push(f(1));
+                            ptr.push(f(2));
+                            nbs.push(f(3));
+                            val.push(f(4));
+                            i += 2 + 5 * k;
+                        }
+                        let bufs: Vec<Value> = (0..slots)
+                            .map(|i| match g.node_weight(NodeIndex::new(i)) {
+                                Some(w) => buf_obs(i, &w.buffers, &mut exact),
+                                None => json!({"id": i, "st": [], "runs": []}),
+                            })
+                            .collect();
+                        let o = json!({"ok": res.is_some() && !overflow, "exact": exact, "order": order, "src": src, "cnt": cnt,
+                                       "ptr": ptr, "nbs": nbs, "val": val, "bufs": bufs,
+                                       "bound": g.node_bound(), "maxin": maxin, "edges": nedges});
+                        out.ev("process", json!({"out": o_ix}), if res.is_some() { r_unit() } else { r_panic() }, o, h);
+                    }
+                    "sources" | "sinks" => {
+                        let mut items: Vec<usize> = Vec::with_capacity(4 * slots + 16);
+                        let gr = &g;
+                        let (res, h, _) = measured(|| {
+                            catch(|| {
+                                if name == "sources" {
+                                    for n in dasp_graph::sources(&gr) {
+                                        if items.len() < items.capacity() {
+                                            items.push(n.index());
+                                        }
+                                    }
+                                } else {
+                                    for n in dasp_graph::sinks(&gr) {
+                                        if items.len() < items.capacity() {
+                                            items.push(n.index());
+                                        }
+                                    }
+                                }
+                            })
+                        });
+                        let r = if res.is_some() { r_items(json!(items)) } else { r_panic() };
+                        // slots / count let a reader (and known_findings predicates) see whether the graph has vacant slots
+                        out.ev(name, json!({"x": 0}), r, json!({"ok": res.is_some(), "slots": slots, "count": g.node_count()}), h);
+                    }
+                    other => panic!("unknown graph event {}", other),
+                }
+            }
+        }
+    };
+}
+c09_runner!(c09_graph_plain, Graph, Probe, |p: Probe| p, false);
+c09_runner!(c09_graph_boxed, Graph, BoxedNode, |p: Probe| BoxedNode::new(p), false);
+c09_runner!(c09_graph_send, Graph, BoxedNodeSend, |p: Probe| BoxedNodeSend::new(p), false);
+c09_runner!(c09_stable_plain, StableGraph, Probe, |p: Probe| p, true);
+c09_runner!(c09_stable_boxed, StableGraph, BoxedNode, |p: Probe| BoxedNode::new(p), true);
+c09_runner!(c09_stable_send, StableGraph, BoxedNodeSend, |p: Probe| BoxedNodeSend::new(p), true);
+
+/// Where the real nodes of a k-node model graph go when extra (later removed) nodes are mixed in.
+fn vac_layout(k: usize, pat: u64) -> (usize, Vec<usize>) {
+    let mut slot_of = Vec::new();
+    let mut next = 0usize;
+    match pat % 5 {
+        0 => next = 1,                       // V r0 r1 ...
+        4 => next = 2,                       // V V r0 r1 ...
+        2 => next = 1,                       // V r0 V r1 ... V
+        _ => {}
+    }
+    for i in 0..k {
+        slot_of.push(next);
+        next += 1;
+        if (pat % 5 == 1 && i == 0) || (pat % 5 == 2 && i == 0 && k > 1) {
+            next += 1;                       // r0 V r1 ...
+        }
+    }
+    let slots = match pat % 5 {
+        2 | 3 => next + 1,                   // ... V at the end (a trailing vacancy shrinks node_bound)
+        1 if k == 1 => next,
+        _ => next,
+    };
+    (slots, slot_of)
+}
+
+/// A stimulus cfg in model coordinates (all slots live, no container) -> the cfg of one concrete variant
+/// in index space, plus the map real node -> index.
+fn remap_cfg(cfg: &Value, container: &str, weight: &str, vac: bool) -> (Value, Vec<usize>) {
+    let k = us(&cfg["slots"]);
+    let pat = cfg["vacpat"].as_u64().unwrap_or(0);
+    let (slots, slot_of) = if vac { vac_layout(k, pat) } else { (k, (0..k).collect()) };
+    let mut kinds = vec![json!("none"); slots];
+    let mut c = vec![json!(0); slots];
+    let mut nb = vec![json!(1); slots];
+    let mut init = vec![json!(0); slots];
+    for i in 0..k {
+        kinds[slot_of[i]] = cfg["kinds"][i].clone();
+        c[slot_of[i]] = cfg["c"][i].clone();
+        nb[slot_of[i]] = cfg["nb"][i].clone();
+        init[slot_of[i]] = cfg["init"][i].clone();
+    }
+    let edges: Vec<Value> =
+        cfg["edges"].as_array().unwrap().iter().map(|e| json!([slot_of[us(&e[0])], slot_of[us(&e[1])]])).collect();
+    let out = json!({"slots": slots, "live": slot_of, "edges": edges, "kinds": kinds, "c": c, "nb": nb, "init": init,
+                     "vacpat": pat, "cap": cfg["cap"], "container": container, "weight": weight});
+    (out, slot_of)
+}
+
+fn c09_variant(ex: &[Value], container: &str, weight: &str, vac: bool) -> Vec<Value> {
+    let mut map: Vec<usize> = Vec::new();
+    ex.iter()
+        .map(|ev| match ev["ev"].as_str().unwrap() {
+            "reset" => {
+                let (cfg, m) = remap_cfg(&ev["cfg"], container, weight, vac);
+                map = m;
+                json!({"ev":"reset","comp":"graph","cfg":cfg})
+            }
+            "graph" => {
+                let (cfg, m) = remap_cfg(&ev["a"]["cfg"], container, weight, vac);
+                map = m;
+                json!({"ev":"graph","a":{"cfg":cfg}})
+            }
+            "process" => json!({"ev":"process","a":{"out": map[us(&ev["a"]["out"])]}}),
+            _ => ev.clone(),
+        })
+        .collect()
+}
+
+fn c09_exec(out: &mut Out, ex: &[Value]) {
+    let cfg = &ev_cfg(&ex[0]);
+    if cfg["container"].is_string() {
+        // already concrete (a replay file, or a `gen` stimulus)
+        let c = cfg["container"].as_str().unwrap();
+        let w = cfg["weight"].as_str().unwrap_or("plain");
+        match (c, w) {
+            ("graph", "plain") => c09_graph_plain(out, ex),
+            ("graph", "boxed") => c09_graph_boxed(out, ex),
+            ("graph", _) => c09_graph_send(out, ex),
+            (_, "plain") => c09_stable_plain(out, ex),
+            (_, "boxed") => c09_stable_boxed(out, ex),
+            (_, _) => c09_stable_send(out, ex),
+        }
+        return;
+    }
+    // model coordinates: every container
+    let pat = cfg["vacpat"].as_u64().unwrap_or(0);
+    let w1 = ["plain", "boxed", "boxed_send"][(pat % 3) as usize];
+    let w2 = ["boxed", "boxed_send", "plain"][(pat % 3) as usize];
+    let w3 = ["boxed_send", "plain", "boxed"][(pat % 3) as usize];
+    // cfg.variants (optional) selects which of the three containers to run; default all
+    let which: Vec<u64> = match cfg["variants"].as_array() {
+        Some(v) => v.iter().map(|x| x.as_u64().unwrap()).collect(),
+        None => vec![0, 1, 2],
+    };
+    if which.contains(&0) {
+        c09_exec(out, &c09_variant(ex, "graph", w1, false));
+    }
+    if which.contains(&1) {
+        c09_exec(out, &c09_variant(ex, "stable", w2, false));
+    }
+    if which.contains(&2) {
+        c09_exec(out, &c09_variant(ex, "stable", w3, true));
+    }
+}
+fn ev_cfg(ev: &Value) -> Value {
+    ev["cfg"].clone()
+}
+
+// ============================================================================================
+// C16: one node under test
+// ============================================================================================
+
+struct Rec16 {
+    ptrs: Vec<(usize, i64)>,
+    src: Vec<i64>,
+    shape: Vec<usize>,
+    ins: Vec<f32>,
+    before: Vec<f32>,
+    after: Vec<f32>,
+    nout: usize,
+    calls: usize,
+    overflow: bool,
+}
+thread_local! {
+    static R16: RefCell<Rec16> = RefCell::new(Rec16 { ptrs: Vec::new(), src: Vec::new(), shape: Vec::new(), ins: Vec::new(),
+        before: Vec::new(), after: Vec::new(), nout: 0, calls: 0, overflow: false });
+}
+fn put(v: &mut Vec<f32>, b: &[f32], overflow: &mut bool) {
+    if v.len() + b.len() > v.capacity() {
+        *overflow = true;
+    } else {
+        v.extend_from_slice(b);
+    }
+}
+
+/// A node that does nothing: feeders (the driver writes their buffers) and `hold` nodes of nested graphs.
+#[derive(Clone)]
+struct Hold;
+impl Node for Hold {
+    fn process(&mut self, _inputs: &[Input], _output: &mut [Buffer]) {}
+}
+
+enum Slot<W> {
+    Feed,
+    Test(W),
+}
+impl<W: Node> Node for Slot<W> {
+    fn process(&mut self, inputs: &[Input], output: &mut [Buffer]) {
+        let w = match self {
+            Slot::Feed => return,
+            Slot::Test(w) => w,
+        };
+        R16.with(|r| {
+            let r = &mut *r.borrow_mut();
+            r.calls += 1;
+            r.nout = output.len();
+            for inp in inputs {
+                let b = inp.buffers();
+                let p = b.as_ptr() as usize;
+                // an input without buffers has no storage to be identified by
+                let id = if b.is_empty() { -1 } else { r.ptrs.iter().find(|(q, _)| *q == p).map(|(_, i)| *i).unwrap_or(-2) };
+                if r.src.len() < r.src.capacity() && r.shape.len() < r.shape.capacity() {
+                    r.src.push(id);
+                    r.shape.push(b.len());
+                } else {
+                    r.overflow = true;
+                }
+                for x in b {
+                    put(&mut r.ins, &x[..], &mut r.overflow);
+                }
+            }
+            for x in output.iter() {
+                put(&mut r.before, &x[..], &mut r.overflow);
+            }
+        });
+        w.process(inputs, output);
+        R16.with(|r| {
+            let r = &mut *r.borrow_mut();
+            for x in output.iter() {
+                put(&mut r.after, &x[..], &mut r.overflow);
+            }
+        });
+    }
+}
+
+fn ints_of(xs: &[f32], exact: &mut bool) -> Value {
+    Value::Array(xs.iter().map(|x| json!(fi(*x, exact))).collect())
+}
+
+macro_rules! c16_runner {
+    ($fname:ident, $G:ident, $stable:expr) => {
+        fn $fname<W: Node>(w: W, out: &mut Out, cfg: &Value, ops: &[Value]) {
+            let mut g: $G<NodeData<Slot<W>>, (), petgraph::Directed, u32> = Default::default();
+            let feeds = uss(&cfg["feeds"]);
+            let nout = us(&cfg["nout"]);
+            let mut rng = Rng::new(cfg["seed"].as_u64().unwrap_or(0));
+            let dummy = if $stable { Some(g.add_node(NodeData::new(Slot::Feed, vec![Buffer::SILENT]))) } else { None };
+            let fix: Vec<NodeIndex> = feeds.iter().map(|&nb| g.add_node(NodeData::new(Slot::Feed, vec![Buffer::SILENT; nb]))).collect();
+            let mut obufs = vec![Buffer::SILENT; nout];
+            for b in obufs.iter_mut() {
+                for s in b.iter_mut() {
+                    *s = rng.range(-9, 9) as f32;
+                }
+            }
+            let t = g.add_node(NodeData::new(Slot::Test(w), obufs));
+            if let Some(d) = dummy {
+                g.add_edge(d, t, ());
+                g.add_edge(t, d, ());
+            }
+            for e in uss(&cfg["edges"]) {
+                g.add_edge(fix[e], t, ());
+            }
+            if let Some(d) = dummy {
+                g.remove_node(d);
+            }
+            let nin = uss(&cfg["edges"]).len();
+            let cap = if cfg["seed"].as_u64().unwrap_or(0) % 2 == 0 { feeds.len() + 2 } else { 0 };
+            let mut proc = Processor::with_capacity(cap);
+            let mut c2 = cfg.clone();
+            c2["len"] = json!(LEN);
+            out.line(&json!({"ev":"reset","comp":"node","cfg":c2,"r":r_unit(),"o":{"ok":true}}));
+            for op in ops {
+                let mut r2 = Rng::new(op["a"]["seed"].as_u64().unwrap_or(0));
+                for &f in fix.iter() {
+                    for b in g.node_weight_mut(f).unwrap().buffers.iter_mut() {
+                        for s in b.iter_mut() {
+                            *s = r2.range(-9, 9) as f32;
+                        }
+                    }
+                }
+                let ptrs: Vec<(usize, i64)> =
+                    fix.iter().enumerate().map(|(k, &f)| (g.node_weight(f).unwrap().buffers.as_ptr() as usize, k as i64)).collect();
+                let maxb = feeds.iter().cloned().max().unwrap_or(0);
+                R16.with(|r| {
+                    let mut r = r.borrow_mut();
+                    r.ptrs = ptrs;
+                    r.src = Vec::with_capacity(nin + 4);
+                    r.shape = Vec::with_capacity(nin + 4);
+                    r.ins = Vec::with_capacity((nin + 1) * (maxb + 1) * LEN);
+                    r.before = Vec::with_capacity((nout + 1) * LEN);
+                    r.after = Vec::with_capacity((nout + 1) * LEN);
+                    r.calls = 0;
+                    r.overflow = false;
+                });
+                let (res, h, _) = measured(|| catch(|| proc.process(&mut g, t)));
+                let mut exact = true;
+                let o = R16.with(|r| {
+                    let r = r.borrow();
+                    let mut ins = Vec::new();
+                    let mut p = 0;
+                    for &nb in r.shape.iter() {
+                        let mut bs = Vec::new();
+                        for _ in 0..nb {
+                            bs.push(ints_of(&r.ins[p..p + LEN], &mut exact));
+                            p += LEN;
+                        }
+                        ins.push(Value::Array(bs));
+                    }
+                    let before: Vec<Value> = r.before.chunks(LEN).map(|c| ints_of(c, &mut exact)).collect();
+                    let after: Vec<Value> = r.after.chunks(LEN).map(|c| ints_of(c, &mut exact)).collect();
+                    json!({"ok": res.is_some() && !r.overflow && r.calls == 1, "exact": exact, "src": r.src, "ins": ins,
+                           "before": before, "after": after})
+                });
+                out.ev("call", op["a"].clone(), if res.is_some() { r_unit() } else { r_panic() }, o, h);
+            }
+        }
+    };
+}
+c16_runner!(c16_graph, Graph, false);
+c16_runner!(c16_stable, StableGraph, true);
+
+struct Case<'a> {
+    out: &'a mut Out,
+    cfg: &'a Value,
+    ops: &'a [Value],
+}
+impl<'a> Case<'a> {
+    fn run<W: Node>(self, w: W) {
+        if self.cfg["container"] == "stable" {
+            c16_stable(w, self.out, self.cfg, self.ops)
+        } else {
+            c16_graph(w, self.out, self.cfg, self.ops)
+        }
+    }
+}
+
+fn wrap<N: Node + 'static>(n: N, wrapper: &str, case: Case) {
+    match wrapper {
+        "ref" => {
+            let mut n = n;
+            case.run(&mut n)
+        }
+        "box" => case.run(Box::new(n)),
+        "boxed" => case.run(BoxedNode::new(n)),
+        "dyn_node" => {
+            let b: Box<dyn Node> = Box::new(n);
+            case.run(b)
+        }
+        "dyn_fnmut" => {
+            let mut n = n;
+            let f: Box<dyn FnMut(&[Input], &mut [Buffer])> = Box::new(move |i: &[Input], o: &mut [Buffer]| n.process(i, o));
+            case.run(f)
+        }
+        _ => case.run(n), // "plain"
+    }
+}
+fn wrap_send<N: Node + Send + 'static>(n: N, wrapper: &str, case: Case) {
+    match wrapper {
+        "boxed_send" => case.run(BoxedNodeSend::new(n)),
+        _ => wrap(n, wrapper, case),
+    }
+}
+fn wrap_stateless<N: Node + Clone + Send + 'static>(n: N, wrapper: &str, case: Case, f: fn(&[Input], &mut [Buffer])) {
+    match wrapper {
+        "dyn_fn" => {
+            let b: Box<dyn Fn(&[Input], &mut [Buffer])> = Box::new(move |i: &[Input], o: &mut [Buffer]| n.clone().process(i, o));
+            case.run(b)
+        }
+        "fn" => case.run(f),
+        _ => wrap_send(n, wrapper, case),
+    }
+}
+fn sum_fn(i: &[Input], o: &mut [Buffer]) {
+    Sum.process(i, o)
+}
+fn sumbuf_fn(i: &[Input], o: &mut [Buffer]) {
+    SumBuffers.process(i, o)
+}
+fn pass_fn(i: &[Input], o: &mut [Buffer]) {
+    Pass.process(i, o)
+}
+fn hold_fn(_i: &[Input], _o: &mut [Buffer]) {}
+
+/// Which wrappers exist for a kind (the type system decides; anything else falls back to "plain").
+fn wrapper_ok(kind: &str, w: &str) -> bool {
+    match kind {
+        "sum" | "sumbuf" | "pass" | "hold" => {
+            ["plain", "ref", "box", "boxed", "boxed_send", "dyn_node", "dyn_fn", "dyn_fnmut", "fn"].contains(&w)
+        }
+        "delay" => ["plain", "ref", "box", "boxed", "boxed_send", "dyn_node", "dyn_fnmut"].contains(&w),
+        "signal" => ["plain", "ref", "ref_dyn", "box", "boxed", "dyn_node", "dyn_fnmut"].contains(&w),
+        _ => ["plain", "ref", "box", "boxed", "dyn_node", "dyn_fnmut"].contains(&w),
+    }
+}
+
+fn sig_val(d: &Value, i: i64, c: i64) -> f32 {
+    let (n, mul, off, modn) = (d["n"].as_i64().unwrap(), d["mul"].as_i64().unwrap(), d["off"].as_i64().unwrap(), d["modn"].as_i64().unwrap());
+    if i < n {
+        (((i * mul + c * 7 + off) % modn) - modn / 2) as f32
+    } else {
+        0.0
+    }
+}
+/// The stimulus' signal: frame i, channel c (1-based) = sig_val; silent (equilibrium) after n frames.
+fn mk_signal<const C: usize>(d: &Value) -> Box<dyn Signal<Frame = [f32; C]>>
+where
+    [f32; C]: Frame<Sample = f32>,
+{
+    let dd = d.clone();
+    let n = d["n"].as_i64().unwrap();
+    Box::new(sig_reg::from_iter((0..n).map(move |i| {
+        let mut a = [0.0f32; C];
+        for c in 0..C {
+            a[c] = sig_val(&dd, i, c as i64 + 1);
+        }
+        a
+    })))
+}
+fn mk_signal_mono(d: &Value) -> Box<dyn Signal<Frame = f32>> {
+    let dd = d.clone();
+    let n = d["n"].as_i64().unwrap();
+    Box::new(sig_reg::from_iter((0..n).map(move |i| sig_val(&dd, i, 1))))
+}
+fn sig_case<const C: usize>(d: &Value, wrapper: &str, case: Case)
+where
+    [f32; C]: Frame<Sample = f32>,
+{
+    let mut s = mk_signal::<C>(d);
+    match wrapper {
+        "ref_dyn" => {
+            let r: &mut (dyn Signal<Frame = [f32; C]> + 'static) = &mut *s;
+            case.run(r)
+        }
+        _ => wrap(s, wrapper, case),
+    }
+}
+
+fn rings_of<S>(d: &Value, mk: impl Fn(Vec<f32>) -> S) -> Vec<rb_reg::Fixed<S>>
+where
+    S: rb_reg::Slice<Element = f32>,
+{
+    d["rings"]
+        .as_array()
+        .unwrap()
+        .iter()
+        .enumerate()
+        .map(|(c, r)| {
+            let data: Vec<f32> = r.as_array().unwrap().iter().map(|x| x.as_i64().unwrap() as f32).collect();
+            rb_reg::Fixed::from_raw_parts(us(&d["first"][c]), mk(data))
+        })
+        .collect()
+}
+
+/// Inner nodes of nested graphs are `BoxedNode`s.
+fn build_boxed(d: &Value) -> BoxedNode {
+    match d["kind"].as_str().unwrap() {
+        "sum" => BoxedNode::new(Sum),
+        "sumbuf" => BoxedNode::new(SumBuffers),
+        "pass" => BoxedNode::new(Pass),
+        "hold" => BoxedNode::new(Hold),
+        "delay" => {
+            if d["storage"] == "boxed" {
+                BoxedNode::new(Delay(rings_of(d, |v| v.into_boxed_slice())))
+            } else {
+                BoxedNode::new(Delay(rings_of(d, |v| v)))
+            }
+        }
+        "signal" => match us(&d["ch"]) {
+            1 => BoxedNode::new(mk_signal_mono(d)),
+            2 => BoxedNode::new(mk_signal::<2>(d)),
+            3 => BoxedNode::new(mk_signal::<3>(d)),
+            _ => BoxedNode::new(mk_signal::<4>(d)),
+        },
+        "graph" => {
+            if d["container"] == "stable" {
+                BoxedNode::new(mk_graphnode_s(d))
+            } else {
+                BoxedNode::new(mk_graphnode_g(d))
+            }
+        }
+        k => panic!("unknown node kind {}", k),
+    }
+}
+macro_rules! mk_graphnode {
+    ($fname:ident, $G:ident, $stable:expr) => {
+        fn $fname(d: &Value) -> GraphNode<$G<NodeData<BoxedNode>, (), petgraph::Directed, u32>, BoxedNode> {
+            let mut g: $G<NodeData<BoxedNode>, (), petgraph::Directed, u32> = Default::default();
+            let dummy = if $stable { Some(g.add_node(NodeData::boxed1(Hold))) } else { None };
+            let nodes = d["nodes"].as_array().unwrap();
+            let ix: Vec<NodeIndex> = nodes
+                .iter()
+                .enumerate()
+                .map(|(v, nd)| {
+                    let bufs: Vec<Buffer> = (0..us(&d["nb"][v])).map(|c| const_buf(d["init"][v][c].as_i64().unwrap() as f32)).collect();
+                    g.add_node(NodeData::new(build_boxed(nd), bufs))
+                })
+                .collect();
+            for e in d["edges"].as_array().unwrap() {
+                g.add_edge(ix[us(&e[0])], ix[us(&e[1])], ());
+                if let Some(dm) = dummy {
+                    g.add_edge(dm, ix[us(&e[1])], ());
+                }
+            }
+            if let Some(dm) = dummy {
+                g.remove_node(dm);
+            }
+            GraphNode {
+                processor: Processor::with_capacity(us(&d["cap"])),
+                graph: g,
+                input_nodes: uss(&d["ins"]).into_iter().map(|v| ix[v]).collect(),
+                output_node: ix[us(&d["out"])],
+                node_type: PhantomData,
+            }
+        }
+    };
+}
+mk_graphnode!(mk_graphnode_g, Graph, false);
+mk_graphnode!(mk_graphnode_s, StableGraph, true);
+
+fn c16_exec(out: &mut Out, ex: &[Value]) {
+    let mut cfg = ex[0]["cfg"].clone();
+    let d = cfg["node"].clone();
+    let kind = d["kind"].as_str().unwrap().to_string();
+    let mut wrapper = cfg["wrapper"].as_str().unwrap_or("plain").to_string();
+    if !wrapper_ok(&kind, &wrapper) {
+        wrapper = "plain".to_string();
+        cfg["wrapper"] = json!("plain");
+    }
+    let case = Case { out, cfg: &cfg, ops: &ex[1..] };
+    let w = wrapper.as_str();
+    match kind.as_str() {
+        "sum" => wrap_stateless(Sum, w, case, sum_fn),
+        "sumbuf" => wrap_stateless(SumBuffers, w, case, sumbuf_fn),
+        "pass" => wrap_stateless(Pass, w, case, pass_fn),
+        "hold" => wrap_stateless(Hold, w, case, hold_fn),
+        "delay" => {
+            if d["storage"] == "boxed" {
+                wrap_send(Delay(rings_of(&d, |v| v.into_boxed_slice())), w, case)
+            } else {
+                wrap_send(Delay(rings_of(&d, |v| v)), w, case)
+            }
+        }
+        "signal" => match us(&d["ch"]) {
+            1 => {
+                if cfg["seed"].as_u64().unwrap_or(0) % 2 == 0 {
+                    sig_case::<1>(&d, w, case)
+                } else if w == "ref_dyn" {
+                    let mut s = mk_signal_mono(&d);
+                    let r: &mut (dyn Signal<Frame = f32> + 'static) = &mut *s;
+                    case.run(r)
+                } else {
+                    wrap(mk_signal_mono(&d), w, case)
+                }
+            }
+            2 => sig_case::<2>(&d, w, case),
+            3 => sig_case::<3>(&d, w, case),
+            _ => sig_case::<4>(&d, w, case),
+        },
+        "graph" => {
+            if d["container"] == "stable" {
+                wrap(mk_graphnode_s(&d), w, case)
+            } else {
+                wrap(mk_graphnode_g(&d), w, case)
+            }
+        }
+        k => panic!("unknown node kind {}", k),
+    }
+}
+
+// ============================================================================================
+// random stimuli
+// ============================================================================================
+
+/// Upper bound on |sample| after `calls` process calls, whatever the traversal order (keeps every value
+/// an exactly representable integer; NOT an expected value).
+fn magnitude_bound(n: usize, edges: &[(usize, usize)], kinds: &[&str], c: &[i64], init: &[i64], calls: usize) -> f64 {
+    let mut b: Vec<f64> = init.iter().map(|x| x.abs() as f64).collect();
+    for call in 0..calls {
+        for _round in 0..n {
+            for v in 0..n {
+                let f = match kinds[v] {
+                    "src" => (c[v].abs() + call as i64 + 1) as f64,
+                    "sum" => edges.iter().filter(|e| e.1 == v && e.0 != v).map(|e| b[e.0]).sum(),
+                    _ => edges.iter().filter(|e| e.1 == v && e.0 != v).map(|e| b[e.0]).fold(0.0, f64::max),
+                };
+                if f > b[v] {
+                    b[v] = f;
+                }
+            }
+        }
+    }
+    b.iter().cloned().fold(0.0, f64::max)
+}
+
+fn gen_graph_cfg(rng: &mut Rng, max_nodes: u64, max_edges: u64, container: &str, weight: &str, calls: usize) -> Value {
+    let k = rng.range(1, max_nodes as i64) as usize;
+    // index space: real nodes interleaved with vacant slots (stable graphs only)
+    let mut live = Vec::new();
+    let mut slots = 0usize;
+    for _ in 0..k {
+        while container == "stable" && rng.chance(1, 4) {
+            slots += 1;
+        }
+        live.push(slots);
+        slots += 1;
+    }
+    while container == "stable" && rng.chance(1, 4) {
+        slots += 1;
+    }
+    let ne = rng.below(max_edges + 1) as usize;
+    let style = rng.below(4);
+    let mut edges: Vec<(usize, usize)> = Vec::new();
+    for _ in 0..ne {
+        let (a, b) = (rng.below(k as u64) as usize, rng.below(k as u64) as usize);
+        let (a, b) = match style {
+            0 => (a.min(b), a.max(b)),            // acyclic apart from self-loops
+            1 if a == b => continue,              // no self-loops
+            _ => (a, b),
+        };
+        if style == 0 && a == b && rng.chance(2, 3) {
+            continue;
+        }
+        edges.push((live[a], live[b]));
+        if rng.chance(1, 6) {
+            edges.push((live[a], live[b])); // parallel edge
+        }
+    }
+    let mut kinds: Vec<&str> = vec!["none"; slots];
+    let mut c = vec![0i64; slots];
+    let mut nb = vec![1i64; slots];
+    let mut init = vec![0i64; slots];
+    for &v in live.iter() {
+        let fed = edges.iter().any(|e| e.1 == v && e.0 != v);
+        kinds[v] = if !fed && rng.chance(3, 4) { "src" } else { *rng.pick(&["src", "sum", "sum", "pass", "pass"]) };
+        c[v] = rng.range(-5, 5);
+        nb[v] = rng.range(1, 3);
+        init[v] = rng.range(-9, 9);
+    }
+    // keep every sample an exact small integer: demote sums until the bound is comfortable
+    while magnitude_bound(slots, &edges, &kinds, &c, &init, calls) > 1_000_000.0 {
+        let sums: Vec<usize> = (0..slots).filter(|&v| kinds[v] == "sum").collect();
+        let v = *rng.pick(&sums);
+        kinds[v] = "pass";
+    }
+    let e: Vec<Value> = edges.iter().map(|e| json!([e.0, e.1])).collect();
+    json!({"slots": slots, "live": live, "edges": e, "kinds": kinds, "c": c, "nb": nb, "init": init,
+           "vacpat": rng.below(5), "cap": *rng.pick(&[0usize, 1, k, 16, 64]), "container": container, "weight": weight})
+}
+
+fn gen_graph_exec(rng: &mut Rng, max_nodes: u64, max_edges: u64) -> Vec<Value> {
+    let container = *rng.pick(&["graph", "stable", "stable"]);
+    let weight = *rng.pick(&["plain", "boxed", "boxed_send"]);
+    let phases = rng.range(1, 3);
+    let mut ex = Vec::new();
+    for ph in 0..phases {
+        let calls = rng.range(1, 4) as usize;
+        let cfg = gen_graph_cfg(rng, max_nodes, max_edges, container, weight, calls);
+        let live = uss(&cfg["live"]);
+        if ph == 0 {
+            ex.push(json!({"ev":"reset","comp":"graph","cfg":cfg}));
+        } else {
+            ex.push(json!({"ev":"graph","a":{"cfg":cfg}}));
+        }
+        let mut left = calls;
+        while left > 0 {
+            match rng.below(6) {
+                0 => ex.push(json!({"ev":"sources","a":{"x":0}})),
+                1 => ex.push(json!({"ev":"sinks","a":{"x":0}})),
+                _ => {
+                    ex.push(json!({"ev":"process","a":{"out": *rng.pick(&live)}}));
+                    left -= 1;
+                }
+            }
+        }
+        ex.push(json!({"ev":"sources","a":{"x":0}}));
+        ex.push(json!({"ev":"sinks","a":{"x":0}}));
+    }
+    ex
+}
+
+fn gen_inner_graph(rng: &mut Rng, depth: u32) -> Value {
+    // acyclic; order-sensitive nodes (pass, delay, nested graph) get at most one feeder
+    let n = rng.range(2, 6) as usize;
+    let mut nodes = Vec::new();
+    let mut nb = Vec::new();
+    let mut init = Vec::new();
+    let mut edges: Vec<Value> = Vec::new();
+    for v in 0..n {
+        let kind = if v == 0 { "hold" } else { *rng.pick(&["hold", "sum", "sum", "sumbuf", "pass", "delay", "graph"]) };
+        let kind = if kind == "graph" && depth == 0 { "sum" } else { kind };
+        let b = rng.range(if kind == "hold" { 1 } else { 0 }, 3) as usize;
+        let d = match kind {
+            "delay" => gen_delay(rng, 3, 9),
+            "graph" => gen_inner_graph(rng, depth - 1),
+            k => json!({"kind": k}),
+        };
+        if v > 0 && kind != "hold" {
+            let many = kind == "sum" || kind == "sumbuf";
+            let cnt = if many { rng.range(1, 3) } else { 1 };
+            for _ in 0..cnt {
+                edges.push(json!([rng.below(v as u64), v]));
+            }
+            if many && rng.chance(1, 4) {
+                edges.push(json!([v, v]));
+            }
+        }
+        nodes.push(d);
+        nb.push(b);
+        init.push((0..b).map(|_| rng.range(-9, 9)).collect::<Vec<i64>>());
+    }
+    let holds: Vec<usize> = (0..n).filter(|&v| nodes[v]["kind"] == "hold").collect();
+    let nins = rng.range(0, 3) as usize;
+    let ins: Vec<usize> = (0..nins).map(|_| if rng.chance(4, 5) { *rng.pick(&holds) } else { rng.below(n as u64) as usize }).collect();
+    json!({"kind":"graph","container": *rng.pick(&["graph","stable"]), "cap": *rng.pick(&[0usize, n, 8]),
+           "nodes": nodes, "nb": nb, "init": init, "edges": edges, "ins": ins, "out": rng.below(n as u64)})
+}
+fn gen_delay(rng: &mut Rng, max_rings: i64, max_len: i64) -> Value {
+    let nr = rng.range(0, max_rings) as usize;
+    let mut rings = Vec::new();
+    let mut first = Vec::new();
+    for _ in 0..nr {
+        let len = match rng.below(6) {
+            0 => 1,
+            1 => LEN as i64,
+            2 => LEN as i64 + rng.range(1, 40),
+            _ => rng.range(1, max_len),
+        };
+        rings.push((0..len).map(|_| rng.range(-9, 9)).collect::<Vec<i64>>());
+        first.push(rng.below(len as u64));
+    }
+    json!({"kind":"delay","rings":rings,"first":first,"storage": *rng.pick(&["vec","boxed"])})
+}
+
+fn gen_node_exec(rng: &mut Rng, calls: usize, k: u64) -> Vec<Value> {
+    let kind = *rng.pick(&["sum", "sumbuf", "pass", "delay", "delay", "signal", "graph", "graph"]);
+    let d = match kind {
+        "delay" => gen_delay(rng, 4, 130),
+        "signal" => json!({"kind":"signal","ch": rng.range(1, 4), "n": rng.range(0, (calls * LEN) as i64 + 70),
+                           "mul": rng.range(1, 97), "off": rng.range(0, 50), "modn": rng.range(2, 19)}),
+        "graph" => gen_inner_graph(rng, 2),
+        k => json!({"kind": k}),
+    };
+    let wrappers = ["plain", "ref", "ref_dyn", "box", "boxed", "boxed_send", "dyn_node", "dyn_fn", "dyn_fnmut", "fn"];
+    let ok: Vec<&str> = wrappers.iter().cloned().filter(|w| wrapper_ok(kind, w)).collect();
+    let nf = rng.range(0, 4) as usize;
+    let feeds: Vec<usize> = (0..nf).map(|_| rng.range(0, 4) as usize).collect();
+    let mut edges: Vec<usize> = Vec::new();
+    if nf > 0 {
+        for _ in 0..rng.range(0, 5) {
+            edges.push(rng.below(nf as u64) as usize); // parallel edges from one feeder allowed
+        }
+    }
+    let mut ex = vec![json!({"ev":"reset","comp":"node","cfg":{"node": d, "wrapper": *rng.pick(&ok), "nout": rng.range(0, 4),
+        "feeds": feeds, "edges": edges, "seed": k, "container": *rng.pick(&["graph","stable"])}})];
+    for j in 0..calls {
+        ex.push(json!({"ev":"call","a":{"seed": 100_000 + 1000 * k + j as u64}}));
+    }
+    ex
+}
+
+fn gen(seed: u64, size: &str, path: &str, what: &str) {
+    let mut rng = Rng::new(seed);
+    let thorough = size == "thorough";
+    let mut execs = Vec::new();
+    if what != "node" {
+        let n = if thorough { 6000 } else { 1200 };
+        for i in 0..n {
+            let (mn, me) = if thorough || i % 4 == 0 { (12, 40) } else { (7, 16) };
+            execs.push(gen_graph_exec(&mut rng, mn, me));
+        }
+    }
+    if what != "graph" {
+        let n = if thorough { 400 } else { 60 };
+        for k in 0..n {
+            execs.push(gen_node_exec(&mut rng, 50, k));
+        }
+    }
+    write_stimuli(path, &execs);
+}
+
 fn main() {
-    let _rb = rb_reg::Fixed::from(vec![0.0f32; 4]);
-    let _d: dasp_graph::node::Delay<Vec<f32>> = dasp_graph::node::Delay(vec![_rb]);
-    println!("ok");
+    let c = cli();
+    silence_panics();
+    match c.mode.as_str() {
+        "gen" => {
+            let what = std::env::args().nth(5).unwrap_or_default();
+            gen(c.a1.parse().unwrap(), &c.a2, &c.a3, &what)
+        }
+        "run" => {
+            let n = drive(&c.a1, &c.a2, |out, ex| match ex[0]["comp"].as_str().unwrap() {
+                "graph" => c09_exec(out, ex),
+                "node" => c16_exec(out, ex),
+                c => panic!("unknown component {}", c),
+            });
+            eprintln!("hx_graph: {} events", n);
+        }
+        _ => {
+            eprintln!("usage: hx_graph run <stimuli> <trace> | gen <seed> <quick|thorough> <stimuli> [graph|node]");
+            std::process::exit(2);
+        }
+    }
 }
